@@ -139,7 +139,10 @@ def make_response(status, headers, payload, environ):
         tornado_handler.set_status(int(status.split()[0]))
     except RuntimeError:  # pragma: no cover
         # for websocket connections Tornado does not accept a response, since
-        # it already emitted the 101 status code
+        # it already emitted the 101 status code; a request that is answered
+        # with a response is one the server did not take, so the connection
+        # is closed instead of being left open with nobody serving it
+        tornado_handler.close()
         return
     for header, value in headers:
         tornado_handler.set_header(header, value)
